@@ -105,6 +105,25 @@ type Service struct {
 	Published  []string
 	Servers    [][]string // addresses in the Servers field of every PublishTunnel request
 	Calls      []string
+	// GenFail, if set, decides whether the n-th (1-based, since the last ResetLog)
+	// GenerateHostname call fails; a failed call registers and returns nothing.
+	GenFail   func(n int) bool
+	genCalls  int
+	GenFailed int
+}
+
+// SetGenFail installs the GenerateHostname failure script.
+func (s *Service) SetGenFail(f func(n int) bool) {
+	s.mu.Lock()
+	s.GenFail = f
+	s.mu.Unlock()
+}
+
+// Failed returns how many GenerateHostname calls failed since the last ResetLog.
+func (s *Service) Failed() int {
+	s.mu.Lock()
+	defer s.mu.Unlock()
+	return s.GenFailed
 }
 
 // TakeServers returns and clears the PublishTunnel server lists.
@@ -129,6 +148,7 @@ func (s *Service) Snapshot() (registered, generated, published, calls []string) 
 func (s *Service) ResetLog() {
 	s.mu.Lock()
 	s.Generated, s.Published, s.Calls, s.Servers = nil, nil, nil, nil
+	s.genCalls, s.GenFailed = 0, 0
 	s.mu.Unlock()
 }
 
@@ -150,6 +170,12 @@ func (s *Service) GetNodes(context.Context, *protocol.GetNodesRequest) (*protoco
 func (s *Service) GenerateHostname(context.Context, *protocol.GenerateHostnameRequest) (*protocol.GenerateHostnameResponse, error) {
 	s.mu.Lock()
 	defer s.mu.Unlock()
+	s.genCalls++
+	if s.GenFail != nil && s.GenFail(s.genCalls) {
+		s.GenFailed++
+		s.log("GenerateHostname->error")
+		return nil, twirp.NewError(twirp.ResourceExhausted, "hostname quota exceeded")
+	}
 	s.gen++
 	h := fmt.Sprintf("%s%d", s.Prefix, s.gen)
 	s.Generated = append(s.Generated, h)
